@@ -17,6 +17,8 @@ CONSTANTS
   RhoendScaleDrop = 0
   MaxRuns = 3
   RhoDropAny = FALSE
+  NoisyObjective = FALSE
+  WithHuge = FALSE
   DefSoftSwap = FALSE
   DefTrialLost = FALSE
   DefX0EvalNum = FALSE
